@@ -28,7 +28,8 @@ BWS/irregular chunk extensions, invalid trailers, other HTTP versions, HTTP/1.0 
 Host, and anything near the documented size limits are don't-care; when a stream contains a bare
 LF both RFC readings (LF terminates a line / LF stays inside the element) are tried and either one
 may explain the server; after a `Connection: close` / HTTP/1.0 request the server may stop;
-a POST with a body and a Content-Type may be refused by twisted's form parser (don't-care).
+a POST whose Content-Type is multipart/form-data may be answered 400 by twisted's own form parser
+(don't-care); any other canonical POST must be delivered.
 """
 from vf.engines import netsim, refhttp
 from vf.props import c18
@@ -151,8 +152,14 @@ def check_reference_against_h11(ctx, stream, reqs):
         ctx.count("h11_agreements")
 
 
-def _post_form_guard(req):
-    return req.method == b"POST" and req.body and b"content-type" in req.header_map()
+def _is_form_post(req):
+    return req.method == b"POST" and bool(req.body) and b"content-type" in req.header_map()
+
+
+def _multipart_guard(req, obs):
+    """twisted parses multipart/form-data bodies of POSTs itself and answers 400 when that fails: legitimate."""
+    return _is_form_post(req) and any(b"multipart/form-data" in v.lower() for v in req.header_map()[b"content-type"]) \
+        and obs["closed"] and obs["final_codes"][-1:] == [b"400"]
 
 
 def walk(ctx, reqs, stop, obs, counting=True):
@@ -199,10 +206,13 @@ def walk(ctx, reqs, stop, obs, counting=True):
                 after_close = True
             continue
         # the server did not deliver this request
-        if r.zone == "accept" and not after_close and not _post_form_guard(r):
+        if r.zone == "accept" and not after_close and not _multipart_guard(r, obs):
             cnt("must_accept_checked")
-            probs.append(("well-formed-request-refused", "a canonical request was not handed to the application",
-                          {"index": idx, "reference": r.as_dict(), "final_codes": codes, "closed": obs["closed"], "exception": obs["exception"]}))
+            key, what = "well-formed-request-refused", "a canonical request was not handed to the application"
+            if obs["exception"] and _is_form_post(r):
+                key = "post-content-type-parse-raises"
+                what = "a well-formed POST is not delivered: parsing its Content-Type value raised out of dataReceived (%s)" % obs["exception"][:80]
+            probs.append((key, what, {"index": idx, "reference": r.as_dict(), "final_codes": codes, "closed": obs["closed"], "exception": obs["exception"]}))
         elif not after_close:
             cnt("dontcare_rejected")
             for n in r.notes:
@@ -221,6 +231,8 @@ def walk(ctx, reqs, stop, obs, counting=True):
             key, what = "delivered-incomplete-request", "a request whose message is incomplete (%s) was handed to the application" % stop.reason
         elif stop.kind == "undefined":
             cnt("undefined_framing_accepted")
+            if not counting:  # an alternative reading that ends in "undefined" explains nothing
+                probs.append(("alternative-reading-undefined", "", {}))
             return probs
         else:
             key, what = "extra-request-delivered", "the server delivered a request the reference does not find in the stream (body bytes parsed as a request?)"
@@ -233,7 +245,10 @@ def walk(ctx, reqs, stop, obs, counting=True):
         sized = any(n in SIZE_NOTES for n in stop.notes)
         if not after_close and not sized:
             if not (obs["closed"] and len(codes) == len(D) + 1 and codes[-1] == b"400"):
-                probs.append(("reject-without-400-" + stop.reason, "a request that must be rejected (%s) was not answered with 400 + close" % stop.reason,
+                key = "reject-without-400-" + stop.reason
+                if stop.reason == "target-byte" and stop.detail and all(0x7F <= c <= 0xB0 for c in stop.detail):
+                    key = "request-target-0x7f-0xb0"  # same mechanism: the head was accepted, the server waits for the body
+                probs.append((key, "a request that must be rejected (%s) was not answered with 400 + close" % stop.reason,
                               {"reference_stop": stop.as_dict(), "final_codes": codes, "closed": obs["closed"], "exception": obs["exception"],
                                "output_tail": obs["output"][-120:]}))
     elif stop.kind == "incomplete":
@@ -314,6 +329,21 @@ def enumerated():
         yield TE + ch + b"5\r\nhello\r\n0\r\n\r\n" + NEXT, "size-byte-before"
         yield TE + b"5\r\nhello\r\n0" + ch + b"\r\n\r\n" + NEXT, "last-chunk-byte"
         yield TE + b"5\r\nhello" + ch + b"\n0\r\n\r\n" + NEXT, "chunk-crlf-byte"
+    # Content-Type values of a POST with a body (twisted parses them to decide about form decoding)
+    import random
+
+    def post(ct):
+        return b"POST /r0 HTTP/1.1\r\nHost: h\r\nContent-Type: " + ct + b"\r\nContent-Length: 5\r\n\r\nhello" + NEXT
+
+    for c in range(256):
+        yield post(b"text/" + bytes([c]) + b"plain"), "content-type-byte"
+        yield post(b"text/plain; a=" + bytes([c])), "content-type-param-byte"
+    frng = random.Random("C19-content-type")
+    for _ in range(400):
+        yield post(bytes(frng.choice(b";*=/'\"%a0 .-") for _ in range(frng.randint(1, 7))).strip(b" ")), "content-type-fuzz"
+    for ct in (b"multipart/form-data", b"multipart/form-data; boundary=x", b"application/x-www-form-urlencoded", b"Multipart/Form-Data; boundary=\"",
+               b"application/x-www-form-urlencoded; charset=\xe9"):
+        yield post(ct), "content-type-form"
     TE = b"POST /r0 HTTP/1.1\r\nHost: h\r\nTransfer-Encoding: chunked\r\n\r\n"
     for sl in refhttp.hostile_chunk_lines():
         yield TE + sl + b"\r\nhello\r\n0\r\n\r\n" + NEXT, "chunkline-first"
@@ -343,7 +373,7 @@ def run(ctx):
         ctx.seen("enumerated_kinds", desc)
         check_stream(ctx, stream, [desc])
     ctx.exhaustive = False
-    for i in ctx.cases(12000, 1500000):
+    for i in ctx.cases(12000, 600000):
         rng = ctx.case_rng(i)
         profile = ("valid", "hostile", "hostile", "mutated", "mixed")[i % 5]
         stream, desc = refhttp.gen_stream(rng, profile, max_requests=4)
